@@ -132,7 +132,25 @@ class TlcResult:
         self.ok = rc == 0
 
     def emits(self, tag="EMIT"):
+        if getattr(self, "emit_path", None):
+            return list(self.iter_emits(tag))
         return parse_emits(self.out, tag)
+
+    def iter_emits(self, tag="EMIT", raw_filter=None):
+        """Streamed runs (tlc(..., stream=True)) keep the emitted lines in a file, not in memory."""
+        if getattr(self, "emit_path", None):
+            with open(self.emit_path, "r", encoding="utf8", errors="replace") as fh:
+                for x in iter_emits(fh, tag, raw_filter):
+                    yield x
+        else:
+            for x in iter_emits(self.out.splitlines(), tag, raw_filter):
+                yield x
+
+    def discard(self):
+        p = getattr(self, "emit_path", None)
+        if p and os.path.exists(p):
+            os.remove(p)
+        self.emit_path = None
 
     def coverage_zero(self):
         """Actions (from -coverage output) that were never taken."""
@@ -154,15 +172,19 @@ def parse_emits(out, tag="EMIT"):
 
     TLC prints the tuple on one line (`<<"TAG", "...">>`) unless its pretty printer manages to
     parse the string, in which case it wraps it (`<< "TAG",\n   "..." >>`); both forms are accepted."""
+    return list(iter_emits(out.splitlines(), tag))
+
+
+def iter_emits(lines, tag="EMIT", raw_filter=None):
+    """Generator form of parse_emits over any iterable of lines (a file object for streamed TLC output).
+    raw_filter: optional predicate on the undecoded line, evaluated before the JSON is parsed."""
     rx = _EMIT_RE.get(tag)
     if rx is None:
         rx = _EMIT_RE[tag] = (re.compile(r'^<<"' + re.escape(tag) + r'", "(.*)">>$'),
                               re.compile(r'^<< "' + re.escape(tag) + r'",\s*$'))
-    res = []
-    lines = out.splitlines()
-    i = 0
-    while i < len(lines):
-        line = lines[i]
+    it = iter(lines)
+    for line in it:
+        line = line.rstrip("\n")
         m = rx[0].match(line)
         inner = None
         if m:
@@ -170,28 +192,25 @@ def parse_emits(out, tag="EMIT"):
         elif rx[1].match(line):
             # wrapped form: collect until the closing " >>"
             buf = []
-            i += 1
-            while i < len(lines):
-                buf.append(lines[i].strip())
-                if lines[i].rstrip().endswith(">>"):
+            for nxt in it:
+                nxt = nxt.rstrip("\n")
+                buf.append(nxt.strip())
+                if nxt.rstrip().endswith(">>"):
                     break
-                i += 1
-            joined = "".join(buf)
-            mm = re.match(r'^"(.*)"\s*>>$', joined)
+            mm = re.match(r'^"(.*)"\s*>>$', "".join(buf))
             if mm:
                 inner = mm.group(1)
         if inner is not None:
+            if raw_filter is not None and not raw_filter(inner):
+                continue
             try:
-                s = json.loads('"' + inner + '"')
-                res.append(json.loads(s))
+                yield json.loads(json.loads('"' + inner + '"'))
             except Exception as ex:  # pragma: no cover
                 raise ToolError("cannot decode emitted line: %r (%s)" % (line[:200], ex))
-        i += 1
-    return res
 
 
 def tlc(module, cfg=None, workers=8, timeout=900, simulate=None, depth=None, tlc_seed=None,
-        env=None, extra=None, dfs=False, xmx="8g", coverage=False, metaname=None, deadlock=False):
+        env=None, extra=None, dfs=False, xmx="8g", coverage=False, metaname=None, deadlock=False, stream=False):
     """Run TLC on specs/<module>.tla (path relative to /verif/specs, without .tla).
 
     Returns TlcResult; raises ToolError on timeout or parse/semantic errors (exit >= 150 etc.).
@@ -229,6 +248,35 @@ def tlc(module, cfg=None, workers=8, timeout=900, simulate=None, depth=None, tlc
     if env:
         e.update(env)
     t0 = time.time()
+    if stream:
+        # the emitted scenarios go to a file (millions of lines); only TLC's own messages are kept in memory
+        opath = meta + ".out"
+        ee = dict(os.environ)
+        ee.update(e)
+        try:
+            with open(opath, "wb") as fh:
+                try:
+                    pr = subprocess.run(cmd, cwd=mdir, env=ee, stdout=fh, stderr=subprocess.PIPE, timeout=timeout)
+                except subprocess.TimeoutExpired as ex:
+                    os.remove(opath)
+                    raise ToolError("timeout after %ss: %s" % (timeout, " ".join(map(str, cmd))[:300])) from ex
+        finally:
+            subprocess.run(["rm", "-rf", meta])
+        keep = []
+        with open(opath, "r", encoding="utf8", errors="replace") as fh:
+            for line in fh:
+                if not (line.startswith("<<") or line.startswith("   \"")):
+                    keep.append(line)
+                    if len(keep) > 200000:
+                        del keep[:100000]
+        res = TlcResult(pr.returncode, "".join(keep), time.time() - t0)
+        res.emit_path = opath
+        if pr.returncode not in (0, 10, 12, 13):
+            res.discard()
+            errs = [l[:400] for l in res.out.splitlines() if re.search(r"Error|Exception|Attempted|overflow", l)][:12]
+            raise ToolError("TLC failed on %s (rc=%d):\n%s\n...\n%s\n%s" % (
+                module, pr.returncode, "\n".join(errs), res.tail(25), pr.stderr.decode("utf8", "replace")[-2000:]))
+        return res
     try:
         p = run(cmd, timeout=timeout, env=e, cwd=mdir)
     finally:
@@ -302,7 +350,10 @@ class Check:
         self.transitions += res.generated
 
     def nontrivial_case(self, key):
-        self.nontrivial.add(key if isinstance(key, (str, int, tuple)) else json.dumps(key, sort_keys=True))
+        if not isinstance(key, (str, int, tuple)):
+            key = json.dumps(key, sort_keys=True)
+        # an 8-byte digest of the key: millions of scenarios must not keep their JSON in memory
+        self.nontrivial.add(hashlib.blake2b(repr(key).encode("utf8", "replace"), digest_size=8).digest())
 
     def sample(self, s, limit=4):
         if len(self.samples) < limit:
@@ -315,6 +366,9 @@ class Check:
             if sig_matches(k.get("match", {}), sig):
                 self.known_hit[k["what"]] = self.known_hit.get(k["what"], 0) + 1
                 return False
+        # full records for the first few thousand, then the mechanism only (a badly broken tree yields millions)
+        if len(self.violations) >= 3000:
+            record = {"why": record.get("why") if isinstance(record, dict) else None, "note": "record dropped: more than 3000 violating cases"}
         rec = {"property": self.pid, "kind": kind, "sig": sig, "record": record}
         self.violations.append(rec)
         return True
